@@ -254,13 +254,14 @@ def run(ck):
                    "revoked, the links went down before it signed): the update stays on one commitment - HTLC left "
                    "dangling at quiescence (F17), plan %s" % plan)
         ctx = "strict validation: %s at line %d\n%s\n%s" % (v["invariant"], line - a, describe(work[a:b]), v["cex"] or "")
-        if plan == "b_00.ndjson":
+        dangling = v["invariant"] in ("invariant QRules", "invariant QResults", "invariant QCircuits")
+        if plan == "b_00.ndjson" and dangling:
             ck.violation(F21_KEY,
                          "processRemoteAdds indexes a replayed forwarding package by the position in the filtered list: after "
                          "two reconnects the exit hop's link dies on a replayed, already settled add and the next payment is "
                          "never answered (F21); %s at line %d" % (v["invariant"], line - a),
                          files={"trace.ndjson": one, "F21_plan.ndjson": os.path.join(SPEC, "repro", "F21_plan.ndjson")}, text=ctx)
-        elif plan == "b_0.ndjson" or validate(ck, one, True, "val_%d_o3" % attempt)["ok"]:
+        elif (plan == "b_0.ndjson" and dangling) or validate(ck, one, True, "val_%d_o3" % attempt)["ok"]:
             # the directed F17 schedule, or a trace that the named deviation O3 alone explains
             ck.violation(O3_KEY, o3_text,
                          files={"trace.ndjson": one, "O3_plan.ndjson": os.path.join(SPEC, "repro", "O3_plan.ndjson")}, text=ctx)
